@@ -19,7 +19,7 @@ CHECKS = {
     "C10": ("harness.checks.kvfam", "C10"),
     "C03": [("harness.checks.storefam", "C03"), ("harness.checks.relayfam", "C03")],
     "C20": ("harness.checks.c20", "C20"),
-    "C18": ("harness.checks.c18", "C18"),
+    "C18": [("harness.checks.c18", "C18"), ("harness.checks.relayfam", "C18")],
     "C13": ("harness.checks.relayfam", "C13"),
     "C05": ("harness.checks.relayfam", "C05"),
     "C01": ("harness.checks.queryfam", "C01"),
